@@ -636,7 +636,13 @@ func (e *Exec) tryInv(env *Env, inv *Clause) (t string, ok bool) {
 func (e *Exec) enterLoop(li *loopInfo) {
 	s := e.st
 	if li.spec == nil {
-		unsupportedf("loop %d (%q) has no invariant", li.ordinal, e.loopHeaderText(li))
+		// a loop without an invariant in the contract (typically one that a code change added): it is cut with
+		// the invariant "true" - everything it writes is unknown afterwards. Sound; what the contract promised
+		// beyond the loop then usually fails, which is the report.
+		li.spec = &LoopSpec{Ordinal: li.ordinal}
+		if !e.discovery {
+			fmt.Fprintf(os.Stderr, "note: %s loop %d (%q) has no invariant in the contract: cut with 'true'\n", shortKey(e.Key), li.ordinal, e.loopHeaderText(li))
+		}
 	}
 	hdr := e.loopHeaderText(li)
 	if li.spec.Header != "" && !strings.Contains(hdr, li.spec.Header) {
